@@ -71,7 +71,8 @@ ModelAngles(d, s) ==
 SqrtQ(q) == CASE q = 16 -> 32 [] q = 64 -> 64 [] q = 256 -> 128
               [] OTHER -> Assert(FALSE, <<"inexact square root", q>>)
 VarFac(o, l, r) == CASE Cls = "TPL" -> Div(l, r)
-                     [] Cls = "TPLH" -> (IF o = 32 THEN Div(l, r) ELSE 2 * SqrtQ(Div(l, r)))
+                     [] Cls = "TPLH" -> (CASE o = 32 -> Div(l, r) [] o = 16 -> 2 * SqrtQ(Div(l, r))
+                                           [] OTHER -> U)   \* other Hurst values are never in bounds in the models used
                      [] OTHER -> U
 IsTPL == Cls \in {"TPL", "TPLH"}
 VarOfO(vr, l, r, o) == IF IsTPL /\ l > 0 THEN Mul(vr, VarFac(o, l, r)) ELSE vr
@@ -210,6 +211,9 @@ SetRescale(r) ==
    classes whose integral scale is len_scale / rescale (Exponential family) *)
 SetIntScale(is) ==   \* is: sequence of length >= 1
   /\ Live /\ Cls = "Plain" /\ op' = [name |-> "SetIntScale", s |-> is]
+  \* the setter passes through intermediate length scales; its interplay with user defined
+  \* length-scale bounds is left unmodelled
+  /\ "len_scale" \notin custom
   /\ IF is[1] <= 0
      THEN /\ status' = "Rejected" /\ UNCHANGED <<len, anis>>
      ELSE /\ IF Len(is) = 1 \/ dim = 1
